@@ -188,6 +188,87 @@ Section Proofs.
       unfold W in Hb. cbn in Hb. destruct (side_mismatch b right); cbn in Hb; lia.
   Qed.
 
+  (* ---- a document whose pages never ask for a re-make (no page-based counter,
+     no target) is laid out in exactly one round *)
+  Definition no_flags (it : item) : Prop := i_changed it = false /\ i_wanted it = false.
+
+  Lemma firstn_all_app {A} (l : list A) (x : A) n : n = length l + 1 -> firstn n (l ++ [x]) = l ++ [x].
+  Proof.
+    intros ->. replace (length l + 1) with (length (l ++ [x])) by (rewrite app_length; reflexivity).
+    apply firstn_all.
+  Qed.
+
+  Lemma first_round_loop_flags :
+    (forall r fn, snd (layout_content r fn) = (false, false)) ->
+    (forall fn, snd (layout_blank fn) = (false, false)) ->
+    forall fuel pre (it : item) fn out,
+    Forall no_flags pre ->
+    fn <= F -> live (length pre) it fn = true -> W (length pre) it fn < fuel ->
+    exists pm' out',
+      make_all_pages fuel (pre ++ [it]) 0 fn (length pre) out = Ok (pm', out') /\
+      Forall no_flags pm'.
+  Proof.
+    intros Hc Hb. induction fuel as [|fuel IH]; intros pre it fn out Hpre HF Hlive HW; [lia|].
+    cbn [make_all_pages PageLoop.make_all_pages].
+    rewrite idx_app_last. cbn [bind]. rewrite Nat.eqb_refl. cbn [orb].
+    rewrite set_nth_app_last.
+    set (it0 := mk_item (i_resume it) (i_brk it) (i_right it) false false).
+    rewrite (remake_page_last pre it0 fn).
+    destruct (page_step it0 fn) as [[[[pg ra] nb] fn'] [cc pw]] eqn:Hs.
+    cbn [bind].
+    assert (Hfl : cc = false /\ pw = false).
+    { unfold page_step in Hs.
+      destruct (side_mismatch (i_brk it0) (i_right it0) || (negb (fn =? 0) && is_none (i_resume it0))).
+      - specialize (Hb fn). destruct (layout_blank fn) as [x fl]. cbn in Hb. subst fl.
+        inversion Hs; subst. auto.
+      - specialize (Hc (i_resume it0) fn). destruct (layout_content (i_resume it0) fn) as [[[x y] z] fl].
+        cbn in Hc. subst fl. inversion Hs; subst. auto. }
+    destruct Hfl as [-> ->].
+    assert (Hlive0 : live (length pre) it0 fn = true) by exact Hlive.
+    destruct (step_decreases (length pre) it0 fn _ _ _ _ _ HF Hlive0 Hs) as [HF' Hdec].
+    set (pre' := pre ++ [mk_item (i_resume it0) (i_brk it0) (i_right it0) false false]) in *.
+    assert (Hpre' : Forall no_flags pre').
+    { unfold pre'. apply Forall_app. split; [exact Hpre|]. constructor; [split; reflexivity|constructor]. }
+    assert (Hlen : length pre + 1 = length pre') by (unfold pre'; rewrite app_length; simpl; lia).
+    destruct (is_none ra && (fn' =? 0)) eqn:Hstop.
+    - eexists _, _. split; [reflexivity|].
+      rewrite Hlen. rewrite firstn_all_app by reflexivity.
+      apply Forall_app. split; [exact Hpre'|]. constructor; [|constructor].
+      apply andb_true_iff in Hstop as [Hn _]. destruct ra; [discriminate|]. split; reflexivity.
+    - destruct (Hdec eq_refl) as [Hl' Hlt]. cbn [i_right it0] in *.
+      rewrite Hlen.
+      replace (S (length pre)) with (length pre') in * by lia.
+      apply (IH pre' _ fn' (out ++ [pg]) Hpre' HF' Hl').
+      assert (HW0 : W (length pre) it0 fn = W (length pre) it fn) by reflexivity.
+      lia.
+  Qed.
+
+  Theorem single_round_without_remake_flags :
+    (forall r fn, snd (layout_content r fn) = (false, false)) ->
+    (forall fn, snd (layout_blank fn) = (false, false)) ->
+    forall max_loops b right, max_loops <> Some 0 ->
+    exists pages, layout_document first_round_fuel max_loops b right = Ok (1, pages).
+  Proof.
+    intros Hc Hb ml b right Hml.
+    unfold layout_document, PageLoop.layout_document.
+    set (k := match ml with None => max_loops_default | Some n => n end).
+    assert (Hk : exists k', k = S k').
+    { unfold k, max_loops_default. destruct ml as [[|n]|]; [congruence|eauto|eauto]. }
+    destruct Hk as [k' ->]. cbn [doc_loop PageLoop.doc_loop].
+    destruct (first_round_loop_flags Hc Hb first_round_fuel [] (mk_item None b right false false) 0 [])
+      as (pm' & out' & Heq & Hfl).
+    - constructor.
+    - lia.
+    - reflexivity.
+    - unfold W, first_round_fuel. cbn. destruct (side_mismatch b right); lia.
+    - unfold initial_page_maker. cbn [app length] in Heq |- *. rewrite Heq. cbn [bind].
+      assert (Hch : existsb i_changed pm' = false).
+      { clear Heq. induction Hfl as [|x l [Hx _] _ IH']; [reflexivity|]. cbn. now rewrite Hx, IH'. }
+      assert (Hwa : existsb i_wanted pm' = false).
+      { clear Heq Hch. induction Hfl as [|x l [_ Hx] _ IH']; [reflexivity|]. cbn. now rewrite Hx, IH'. }
+      rewrite Hch, Hwa. cbn. eauto.
+  Qed.
+
   (* the re-pagination loop of layoutDocument runs at most max_loops rounds,
      whatever makeAllPages does (port of the loop condition of layout.go 147-176) *)
   Lemma doc_loop_rounds make_all : forall k rounds pm pages n pages',
